@@ -390,9 +390,17 @@ class EGen:
     return [f"{v} = f2(lambda: {self.mistake()},", f"       lambda: {self.mistake()})"]
 
   def b_called_from(self):
-    h = self.fresh("h")
-    return [f"def {h}(x):", "  return x + 1", f"{self.fresh()} = {h}('a')", f"{self.fresh()} = {h}([])",
-            f"{self.fresh()} = {h}(", "    None)"]
+    """The same error reached through several call sites / call depths: exercises the
+    traceback handling of the error log (dedup, shorter traceback wins, several tracebacks)."""
+    h, h2 = self.fresh("h"), self.fresh("h")
+    body = self.r.choice(["x + 1", "x.nope", "gi(x)", "x()", "x + 1"])
+    arg = "'%s'" if body != "x()" else "%d"
+    mk = lambda i: arg % (chr(97 + i) if arg == "'%s'" else i)
+    out = [f"def {h}(x):", f"  return {body}", f"def {h2}(y):", f"  return {h}(y)"]
+    out += [f"{self.fresh()} = {h}({mk(0)})", f"{self.fresh()} = {h}([])", f"{self.fresh()} = {h}({mk(1)})",
+            f"{self.fresh()} = {h2}({mk(2)})", f"{self.fresh()} = {h}(", f"    {mk(3)})",
+            f"{self.fresh()} = [{h}({mk(4)}), {h2}({mk(5)}),", f"    {h2}({mk(6)})]"]
+    return out
 
   def b_assert(self):
     return [f"assert {self.mistake()}, {self.mistake()}"]
@@ -494,9 +502,9 @@ class EGen:
       ("decorated", 4), ("decorated_class", 2), ("implicit", 4), ("with", 3), ("comprehension", 2),
       ("subscript", 2), ("compare", 2), ("binop", 2), ("header", 3), ("return_ml", 3),
       ("class_body", 2), ("override", 1), ("semicolon", 1), ("backslash", 1), ("literal_ml", 1),
-      ("lambda", 1), ("called_from", 1), ("assert", 1), ("augassign", 1), ("try", 1), ("import", 2),
+      ("lambda", 1), ("called_from", 2), ("assert", 1), ("augassign", 1), ("try", 1), ("import", 2),
       ("mlstring", 1), ("annassign", 3), ("misc_stmt", 2), ("nested_def", 1), ("match", 1),
-      ("generator", 1), ("directive_time", 1),
+      ("generator", 1), ("directive_time", 2),
   ]
 
   def program(self, nblocks):
